@@ -40,6 +40,7 @@ class Component:
 
 _components = []
 _installed = False
+EXIT_MODE = False       # child-process mode: a crash is os._exit(137) and files are real (really buffered) file objects
 
 
 def register(name, root):
@@ -64,6 +65,8 @@ def _comp(path):
 
 
 def _crash(c, k, when):
+    if EXIT_MODE:
+        os._exit(137)           # the process is gone: buffered data that was not flushed never reaches the disk
     c.dead = True
     c.crashed_at = (k, when)
     res = c.plan[2] if c.plan else "empty"
@@ -140,6 +143,10 @@ class BufferedWriteFile:
         def do():
             with _real_open(self.path, "wb") as f:
                 f.write(self._data())
+            # the file is complete and closed now: a crash right AFTER the close must not touch it any more
+            self.closed = True
+            if self in self.c.open_files:
+                self.c.open_files.remove(self)
         try:
             _mutation(self.c, "close", self.rel, do)
         finally:
@@ -164,6 +171,33 @@ class BufferedWriteFile:
         raise io.UnsupportedOperation("fileno")
 
 
+class CountingRealFile:
+    """child-process mode: the real (buffered) file object; write and close are counted as mutations"""
+
+    def __init__(self, comp, rel, f):
+        self.c, self.rel, self.f = comp, rel, f
+
+    def write(self, data):
+        return _mutation(self.c, "write", self.rel, lambda: self.f.write(data))
+
+    def close(self):
+        if not self.f.closed:
+            _mutation(self.c, "close", self.rel, self.f.close)
+
+    def flush(self):
+        self.f.flush()
+
+    def __enter__(self):
+        return self
+
+    def __exit__(self, *a):
+        self.close()
+        return False
+
+    def __getattr__(self, name):
+        return getattr(self.f, name)
+
+
 def _open(file, mode="r", *args, **kwargs):
     if isinstance(file, int) or not any(ch in mode for ch in "wax+"):
         return _real_open(file, mode, *args, **kwargs)
@@ -178,6 +212,8 @@ def _open(file, mode="r", *args, **kwargs):
         kwargs["encoding"] = args[1]
 
     def do():
+        if EXIT_MODE:
+            return CountingRealFile(c, rel, _real_open(file, mode, *args, **kwargs))
         _real_open(path, "wb").close()     # the truncating / creating open is visible at once
         f = BufferedWriteFile(c, rel, path, mode, kwargs)
         c.open_files.append(f)
